@@ -318,9 +318,13 @@ CLAIMS: dict[str, tuple[str, str, str, str]] = {
         "conservative_extension (Props/C10h.lean): two configurations of the eleven-rule inline sub-parser that differ only in which of newline, escape, "
         "backticks, link, image, autolink, html_inline, entity are enabled yield the same token stream on every source holding none of the trigger characters "
         "of the rules they differ in — through label walks, link texts and image descriptions at every depth (a relation between rule chains, Ext, carried "
-        "through every engine function under the two-mode contract). "
+        "through every engine function under the two-mode contract). strikethrough_conservative (Props/C10i.lean) — the example the property itself gives: for "
+        "inputs that do not contain '~~' the token stream of the inline sub-parser is identical with the strikethrough extension on or off (tokenizer rule and "
+        "second-chain rule, every nesting depth, every other configuration): the rule is inert without two tildes in a row (scanDelims counts a run of one), "
+        "without it no rule ever records a tilde delimiter (an invariant of the delimiter bookkeeping — current list, enclosing scopes, closed scopes — "
+        "through every rule and engine function, DInv / keepsI_*), processDelims keeps markers, and strikethrough's post-processing is then the identity. "
         "MISSING: provenance for the remaining rules (table, reference; linkify) and the "
-        "conservative-extension clause for the block rules and the second-chain rules are decided by the oracle (token kinds under random rule subsets; "
+        "conservative-extension clause for the block rules (table: not modelled) and for emphasis are decided by the oracle (token kinds under random rule subsets; "
         "table/strikethrough on vs off on trigger-free inputs; definition options erase to the plain parse, env and HTML equal; "
         "switches issued while a render is in flight). Tie: Ruler/facade/options model of C11/C12 + route requests.",
         NOTE,
